@@ -167,33 +167,42 @@ def modest(spec, ref, limit=0.10):
     return True
 
 
-def arrival(spec):
-    """Sweep in which each node first shows a non-zero output in the solver's start-up:
-    sources, converters and regulators start at their nominal output, a passive element
-    one sweep after its supplier."""
-    arr = {}
-    for n in spec["nodes"]:
-        k = n["kind"]
-        if k in ("Source", "Converter", "LinReg"):
-            arr[n["name"]] = 0
-        elif k == "PMux":
-            arr[n["name"]] = 1 + min(arr[p] for p in n["parents"])
-        else:
-            arr[n["name"]] = 1 + arr[n["parents"][0]]
-    return arr
+def liveness_by_sweep(spec):
+    """Which components show a non-zero output in sweep t of the solver's start-up (t = 0 is the
+    start vector: sources, converters and regulators at their nominal output, everything else
+    at 0 V; afterwards a component is live iff its supplier was live one sweep earlier)."""
+    nodes = spec["nodes"]
+    live = [{n["name"]: n["kind"] in ("Source", "Converter", "LinReg") and not (
+        n["kind"] == "Source" and n["params"]["vo"] == 0.0) for n in nodes}]
+    for _t in range(len(nodes) + 2):
+        prev, cur = live[-1], {}
+        for n in nodes:
+            if n["kind"] == "Source":
+                cur[n["name"]] = n["params"]["vo"] != 0.0
+            elif n["kind"] in S.LOADS:
+                cur[n["name"]] = False
+            elif n["kind"] == "PMux":
+                cur[n["name"]] = any(prev[p] for p in n["parents"])
+            else:
+                cur[n["name"]] = prev[n["parents"][0]]
+        live.append(cur)
+    return live
 
 
 def mux_startup_transient(spec):
-    """Trigger of known finding F17: a PMux input of higher priority whose voltage arrives
-    later (through passive elements) than a lower-priority input: for a few sweeps the mux
-    feeds its loads from the wrong input."""
-    arr = arrival(spec)
+    """Trigger of known finding F17: in some sweep of the start-up a higher-priority PMux input
+    is still (or again) dead while a lower-priority one is live, so the mux feeds its loads
+    from the wrong input for a few sweeps."""
+    live = liveness_by_sweep(spec)
+    final = live[-1]
     for n in spec["nodes"]:
         if n["kind"] == "PMux" and len(n["parents"]) > 1:
-            a = [arr[p] for p in n["parents"]]
-            for i in range(len(a)):
-                if any(a[j] < a[i] for j in range(i + 1, len(a))):
-                    return True
+            ps = n["parents"]
+            for lv in live[:-1]:
+                for i in range(len(ps)):
+                    if final[ps[i]] and not lv[ps[i]] and any(lv[ps[j]] for j in range(i + 1,
+                                                                                      len(ps))):
+                        return True
     return False
 
 
